@@ -57,8 +57,23 @@ class Indiv(list):
     __slots__ = ("fitness",)
 
 
-def build(w, popvals):
-    F = fit_class([Fr(x) for x in w])
+def family_class(d):
+    """fresh fitness classes for a HISTORY case: a parent class (weights d["parent"]["w"]) that has already been through
+    assignCrowdingDist and selNSGA2 with both back-ends, and the class under test DERIVED from it with its own weights
+    (possibly another number of objectives).  Nothing may be remembered per fitness type and found again through
+    inheritance (seeded change C05-r7m1 caches the per-objective sort keys on the class)."""
+    par = d["parent"]
+    P = type("FitP", (base.Fitness,), {"weights": tuple(float(Fr(x)) for x in par["w"])})
+    pp = build(par["w"], par["pop"], P)
+    emo.assignCrowdingDist(list(pp))
+    for nd in (["standard", "log"] if len(par["w"]) >= 2 else ["standard"]):
+        emo.selNSGA2(build(par["w"], par["pop"], P), par["k"], nd)
+    return type("FitC", (P,), {"weights": tuple(float(Fr(x)) for x in d["w"])})
+
+
+def build(w, popvals, F=None):
+    if F is None:
+        F = fit_class([Fr(x) for x in w])
     pop = []
     for vals in popvals:
         ind = Indiv(float(Fr(v)) for v in vals)
@@ -149,7 +164,7 @@ def evaluate(d):
 
 
 def eval_crowd(d):
-    pop = build(d["w"], d["pop"])
+    pop = build(d["w"], d["pop"], family_class(d) if d.get("parent") else None)
     emo.assignCrowdingDist(pop)
     vals = [tuple(Fr(x) for x in ind.fitness.values) for ind in pop]
     want = [tuple(Fr(v) for v in t) for t in d["pop"]]
@@ -167,7 +182,7 @@ def eval_crowd(d):
                 tol=None if d.get("exact") else 1e-9)
 
 
-def one_call(objs, valsF, w, k, nd, exact, lines, expect):
+def one_call(objs, valsF, w, k, nd, exact, lines, expect, F=None):
     """one selNSGA2 call on the objects `objs` (whose assigned values are `valsF`, exact rationals taken from the
     case description).  Appends the protocol lines; returns (chosen objects, oracle message or None)."""
     n = len(objs)
@@ -182,7 +197,7 @@ def one_call(objs, valsF, w, k, nd, exact, lines, expect):
         return chosen, orc
     # ---- correspondence, piecewise: the cut replayed on the fronts and distances of fresh copies
     sorter = emo.sortNondominated if nd == "standard" else emo.sortLogNondominated
-    pop2 = build(w, [[sfr(x) for x in t] for t in valsF])
+    pop2 = build(w, [[sfr(x) for x in t] for t in valsF], F)
     idx2 = dict((id(o), i) for i, o in enumerate(pop2))
     fronts = sorter(pop2, k)
     for f in fronts:
@@ -209,8 +224,9 @@ def eval_sel(d):
     n = len(d["pop"])
     valsF = [tuple(Fr(v) for v in t) for t in d["pop"]]
     lines, expect, orc = [], [], None
+    F = family_class(d) if d.get("parent") else None
     for nd in d["nds"]:
-        pop = build(w, d["pop"])
+        pop = build(w, d["pop"], F)
         got = [tuple(Fr(x) for x in ind.fitness.values) for ind in pop]
         gotw = [tuple(Fr(x) for x in ind.fitness.wvalues) for ind in pop]
         if gotw != [tuple(v * Fr(x) for v, x in zip(t, w)) for t in valsF]:
@@ -223,14 +239,14 @@ def eval_sel(d):
             for ind, sd in zip(pop, d["stale"]):
                 if sd is not None:
                     ind.fitness.crowding_dist = INF if sd == "inf" else float(Fr(sd))
-        chosen, o1 = one_call(pop, valsF, w, d["k"], nd, d.get("exact", False), lines, expect)
+        chosen, o1 = one_call(pop, valsF, w, d["k"], nd, d.get("exact", False), lines, expect, F)
         if orc is None:
             orc = o1
         if d.get("k2") is not None and o1 is None and chosen:
             # second selection among the survivors of the first (they carry the distances of the first call)
             index_of = dict((id(o), i) for i, o in enumerate(pop))
             vals2 = [valsF[index_of[id(o)]] for o in chosen]
-            _, o2 = one_call(list(chosen), vals2, w, d["k2"], nd, False, lines, expect)
+            _, o2 = one_call(list(chosen), vals2, w, d["k2"], nd, False, lines, expect, F)
             if orc is None and o2 is not None:
                 orc = "second call on the survivors of selNSGA2(k=%d): %s" % (d["k"], o2)
     return Case(d, lines, expect, orc, tag=d.get("tag", "sel"), nontrivial=(0 < d["k"] < n),
@@ -469,8 +485,35 @@ def sel_cases(rng, it, kind, n, m):
         yield sel_case(w, pop, k, "sel/%s/m=%d%s" % (kind, m, "/exact" if ex else ""), exact=ex, stale=stale, k2=k2)
 
 
+def family_cases(tier, rng, mult):
+    """HISTORY stream: the fitness class under test derives from a class of ANOTHER weight vector (other signs, other
+    number of objectives) that was used first; pairwise distinct values so that the statement's crowding formula is
+    demanded exactly."""
+    count = (400 if tier == "thorough" else 40) * mult
+    for it in range(count):
+        mp = rng.choice([1, 2, 2, 3, 4])
+        m = rng.choice([x for x in (2, 3, 4) if x != mp] + [mp])
+        npar = rng.choice([3, 4, 6])
+        par = {"w": rand_weights(rng, mp), "pop": [list(map(str, q[:mp])) for q in gen_pop(rng, npar, max(mp, 2), "distinct")],
+               "k": rng.randint(1, npar)}
+        n = rng.choice([3, 4, 5, 6, 8, 10])
+        pop = gen_pop(rng, n, m, "distinct")
+        w = rand_weights(rng, m)
+        if it % 3 == 2:
+            sp = [list(map(str, x)) for x in pop]
+            yield {"kind": "crowd", "w": w, "pop": sp, "tag": "family/crowd/m=%d<-%d" % (m, mp), "exact": False,
+                   "parent": par}
+        else:
+            for k in ks_for(rng, n):
+                c = sel_case(w, pop, k, "family/sel/m=%d<-%d" % (m, mp), exact=False)
+                c["parent"] = par
+                yield c
+
+
 def generate(tier, rng, mult):
     thorough = tier == "thorough"
+    for c in family_cases(tier, rng, mult):
+        yield c
     # exhaustive small part: multisets over {0,1,2}^2 (a random order each), every k, both back-ends
     points = list(itertools.product([0, 1, 2], repeat=2))
     small = []
